@@ -1,8 +1,242 @@
-//! C03 — stub, to be written.
+//! C03: quantification and nested apply equal operate-then-project.
+//!
+//! Case kinds (inputs => observed):
+//!   C03.nested  n outerTable outerConn L R triggerMask innerTable innerConn => binary_op_nested result
+//!               (trigger(v) = bit v of the mask; innerConn is 14 (or) or 8 (and), the inner table any
+//!                table consistent with it, `or`/`and` stand for the library's own op_function)
+//!   C03.exq     n outerTable outerConn L R vars1 vars2 => binary_op_with_exists on vars1, on vars2
+//!   C03.allq    n outerTable outerConn L R vars1 vars2 => binary_op_with_for_all on vars1, on vars2
+//!   C03.exists  L vars1 vars2 => exists(vars1) exists(vars2) project(vars1)
+//!   C03.forall  L vars1 vars2 => for_all(vars1) for_all(vars2)
+//!   C03.varex   L x => var_exists(x) var_project(x)
+//!   C03.varall  L x => var_for_all(x)
+//! vars2 is a permutation of vars1 with duplicates (same set); both results must be identical.
 #[path = "../common.rs"]
 mod common;
+use biodivine_lib_bdd::*;
 use common::*;
 
-pub fn run(key: &str, _a: &[String], _out: &mut Out) { panic!("unknown key {}", key) }
-pub fn gen(_tier: Tier, _rng: &mut Rng64, _out: &mut Out) {}
+fn s(x: &str) -> String { x.to_string() }
+
+fn parse_vars(x: &str) -> Vec<BddVariable> {
+    if x == "~" { vec![] } else { x.split(',').map(|v| var(v.parse::<usize>().unwrap())).collect() }
+}
+
+fn nested_with_inner(l: &Bdd, r: &Bdd, mask: u64, outer: &str, inner: &str) -> Option<Bdd> {
+    let trigger = move |v: BddVariable| (mask >> (v.to_index() as u64 % 64)) & 1 == 1;
+    match inner {
+        "or" => catch(|| Bdd::binary_op_nested(l, r, trigger, table_fn(outer), op_function::or)),
+        "and" => catch(|| Bdd::binary_op_nested(l, r, trigger, table_fn(outer), op_function::and)),
+        t => catch(|| Bdd::binary_op_nested(l, r, trigger, table_fn(outer), table_fn(t))),
+    }
+}
+
+#[allow(deprecated)]
+pub fn run(key: &str, a: &[String], out: &mut Out) {
+    match key {
+        "C03.nested" => {
+            let (l, r) = (Bdd::from_string(&a[3]), Bdd::from_string(&a[4]));
+            let mask: u64 = a[5].parse().unwrap();
+            let res = nested_with_inner(&l, &r, mask, &a[1], &a[6]);
+            out.case(key, a, &[fmt_res_bdd(&res)]);
+        }
+        "C03.exq" | "C03.allq" => {
+            let (l, r) = (Bdd::from_string(&a[3]), Bdd::from_string(&a[4]));
+            let (v1, v2) = (parse_vars(&a[5]), parse_vars(&a[6]));
+            let f = |vs: &[BddVariable]| {
+                if key == "C03.exq" {
+                    catch(|| Bdd::binary_op_with_exists(&l, &r, table_fn(&a[1]), vs))
+                } else {
+                    catch(|| Bdd::binary_op_with_for_all(&l, &r, table_fn(&a[1]), vs))
+                }
+            };
+            let (r1, r2) = (f(&v1), f(&v2));
+            out.case(key, a, &[fmt_res_bdd(&r1), fmt_res_bdd(&r2)]);
+        }
+        "C03.exists" => {
+            let l = Bdd::from_string(&a[0]);
+            let (v1, v2) = (parse_vars(&a[1]), parse_vars(&a[2]));
+            let r1 = catch(|| l.exists(&v1));
+            let r2 = catch(|| l.exists(&v2));
+            let r3 = catch(|| l.project(&v1));
+            out.case(key, a, &[fmt_res_bdd(&r1), fmt_res_bdd(&r2), fmt_res_bdd(&r3)]);
+        }
+        "C03.forall" => {
+            let l = Bdd::from_string(&a[0]);
+            let (v1, v2) = (parse_vars(&a[1]), parse_vars(&a[2]));
+            let r1 = catch(|| l.for_all(&v1));
+            let r2 = catch(|| l.for_all(&v2));
+            out.case(key, a, &[fmt_res_bdd(&r1), fmt_res_bdd(&r2)]);
+        }
+        "C03.varex" => {
+            let l = Bdd::from_string(&a[0]);
+            let x = var(a[1].parse::<usize>().unwrap());
+            let r1 = catch(|| l.var_exists(x));
+            let r2 = catch(|| l.var_project(x));
+            out.case(key, a, &[fmt_res_bdd(&r1), fmt_res_bdd(&r2)]);
+        }
+        "C03.varall" => {
+            let l = Bdd::from_string(&a[0]);
+            let x = var(a[1].parse::<usize>().unwrap());
+            let r1 = catch(|| l.var_for_all(x));
+            out.case(key, a, &[fmt_res_bdd(&r1)]);
+        }
+        _ => panic!("unknown key {}", key),
+    }
+}
+
+/// the subset `mask` of {0..n-1} as a list in increasing order
+fn subset(n: usize, mask: usize) -> Vec<usize> { (0..n).filter(|k| (mask >> k) & 1 == 1).collect() }
+
+/// a list with the same set of elements: shuffled, with random duplicates
+fn reorder(rng: &mut Rng64, xs: &[usize]) -> Vec<usize> {
+    let mut v: Vec<usize> = xs.to_vec();
+    if v.is_empty() { return v; }
+    let dups = rng.below(3) as usize;
+    for _ in 0..dups { let x = *rng.pick(xs); v.push(x); }
+    for i in (1..v.len()).rev() { let j = rng.below(i as u64 + 1) as usize; v.swap(i, j); }
+    v
+}
+
+/// outer tables: the six built-in connectives in eager form, a lazy one, a random one
+fn outer_tables(rng: &mut Rng64) -> Vec<(String, u32)> {
+    let mut t: Vec<(String, u32)> = [8u32, 14, 6, 11, 4, 9].iter().map(|c| (eager_table2(*c), *c)).collect();
+    let c = rng.below(16) as u32;
+    t.push((lazy_table2(c), c));
+    let c = rng.below(16) as u32;
+    t.push((random_table2(rng, c), c));
+    t
+}
+
+fn inner_choice(rng: &mut Rng64) -> (String, u32) {
+    match rng.below(6) {
+        0 | 1 => (s("or"), 14),
+        2 | 3 => (s("and"), 8),
+        4 => (if rng.bool() { lazy_table2(14) } else { random_table2(rng, 14) }, 14),
+        _ => (if rng.bool() { lazy_table2(8) } else { random_table2(rng, 8) }, 8),
+    }
+}
+
+fn quant_pair(rng: &mut Rng64, n: usize, tab: &(String, u32), l: &str, r: &str, vs: &[usize], out: &mut Out, both: bool) {
+    let v2 = reorder(rng, vs);
+    let ins = [n.to_string(), tab.0.clone(), tab.1.to_string(), s(l), s(r), fmt_usizes(vs), fmt_usizes(&v2)];
+    let ex = rng.bool();
+    if both || ex { run("C03.exq", &ins, out); }
+    if both || !ex { run("C03.allq", &ins, out); }
+}
+
+fn unary_all(rng: &mut Rng64, n: usize, l: &str, out: &mut Out, subsets: &[usize]) {
+    for m in subsets {
+        let vs = subset(n, *m);
+        let v2 = reorder(rng, &vs);
+        run("C03.exists", &[s(l), fmt_usizes(&vs), fmt_usizes(&v2)], out);
+        let v3 = reorder(rng, &vs);
+        run("C03.forall", &[s(l), fmt_usizes(&vs), fmt_usizes(&v3)], out);
+    }
+    for x in 0..n {
+        run("C03.varex", &[s(l), x.to_string()], out);
+        run("C03.varall", &[s(l), x.to_string()], out);
+    }
+}
+
+pub fn gen(tier: Tier, rng: &mut Rng64, out: &mut Out) {
+    let thorough = tier == Tier::Thorough;
+    // --- exhaustive: all pairs of functions over n <= 2, every outer table, every subset
+    for n in 0..=2usize {
+        let count = 1u64 << (1u64 << n);
+        let all: Vec<String> = (0..count).map(|t| fmt_bdd(&bdd_of_tt(n, &tt_from_index(n, t)))).collect();
+        for l in &all {
+            let subsets: Vec<usize> = (0..(1usize << n)).collect();
+            unary_all(rng, n, l, out, &subsets);
+            // out-of-range variable: check_flip_bounds panics
+            run("C03.varex", &[l.clone(), n.to_string()], out);
+            run("C03.varall", &[l.clone(), (n + 1).to_string()], out);
+            for r in &all {
+                let tabs = outer_tables(rng);
+                for tab in &tabs {
+                    for m in 0..(1usize << n) {
+                        if thorough || n < 2 || rng.chance(1, 2) {
+                            quant_pair(rng, n, tab, l, r, &subset(n, m), out, thorough);
+                        }
+                    }
+                    if thorough || rng.chance(1, 3) {
+                        let inner = inner_choice(rng);
+                        let mask = rng.below(1 << (n + 1));
+                        run("C03.nested", &[n.to_string(), tab.0.clone(), tab.1.to_string(), l.clone(), r.clone(), mask.to_string(), inner.0, inner.1.to_string()], out);
+                    }
+                }
+            }
+        }
+    }
+    // --- n = 3: all 256 functions for the unary operations; pairs sampled (quick) / all (thorough)
+    let all3: Vec<String> = (0..256u64).map(|t| fmt_bdd(&bdd_of_tt(3, &tt_from_index(3, t)))).collect();
+    for (i, l) in all3.iter().enumerate() {
+        if thorough || i % 4 == (rng.below(4) as usize) {
+            let subsets: Vec<usize> = (0..8).collect();
+            unary_all(rng, 3, l, out, &subsets);
+        }
+    }
+    let pairs3: u64 = if thorough { 65536 } else { 900 };
+    for i in 0..pairs3 {
+        let (a, b) = if thorough { ((i / 256) as usize, (i % 256) as usize) } else { (rng.below(256) as usize, rng.below(256) as usize) };
+        let (l, r) = (&all3[a], &all3[b]);
+        let tabs = outer_tables(rng);
+        for m in 0..8usize {
+            let tab = rng.pick(&tabs).clone();
+            quant_pair(rng, 3, &tab, l, r, &subset(3, m), out, false);
+        }
+        let tab = rng.pick(&tabs).clone();
+        let inner = inner_choice(rng);
+        let mask = rng.below(16);
+        run("C03.nested", &[s("3"), tab.0.clone(), tab.1.to_string(), l.clone(), r.clone(), mask.to_string(), inner.0, inner.1.to_string()], out);
+        if thorough && i % 16 == 0 {
+            for tab in &tabs { quant_pair(rng, 3, tab, l, r, &[0, 1, 2], out, true); }
+        }
+    }
+    // --- random operands over 4..6 variables (quick) / 4..8 (thorough); non-canonical operands;
+    //     random subsets, all-variables-quantified cases (inner-cache sharing), lists mentioning
+    //     variables outside the Bdd, arbitrary trigger masks
+    let rounds = if thorough { 120000 } else { 2200 };
+    for _ in 0..rounds {
+        let n = 4 + rng.below(if thorough { 5 } else { 3 }) as usize;
+        let mut l = random_bdd(rng, n);
+        let mut r = if rng.chance(1, 6) { l.clone() } else { random_bdd(rng, n) };
+        if rng.chance(1, 6) { l = noncanon_variant(rng, &l); }
+        if rng.chance(1, 6) { r = noncanon_variant(rng, &r); }
+        let (ls, rs) = (fmt_bdd(&l), fmt_bdd(&r));
+        let tabs = outer_tables(rng);
+        let tab = rng.pick(&tabs).clone();
+        let mask = match rng.below(5) {
+            0 => (1usize << n) - 1,                       // everything quantified
+            1 => ((1usize << n) - 1) & !(1usize << rng.below(n as u64)), // all but one
+            2 => 1usize << rng.below(n as u64),            // a single variable
+            _ => rng.below(1 << n) as usize,
+        };
+        let mut vs = subset(n, mask);
+        if rng.chance(1, 10) { vs.push(n + rng.below(3) as usize); }  // not a variable of the Bdd: harmless
+        quant_pair(rng, n, &tab, &ls, &rs, &vs, out, false);
+        let inner = inner_choice(rng);
+        let tmask = if rng.chance(1, 4) { (1u64 << n) - 1 } else { rng.below(1 << (n + 1)) };
+        let tab2 = rng.pick(&tabs).clone();
+        run("C03.nested", &[n.to_string(), tab2.0, tab2.1.to_string(), ls.clone(), rs.clone(), tmask.to_string(), inner.0, inner.1.to_string()], out);
+        let v2 = reorder(rng, &vs);
+        if rng.bool() {
+            run("C03.exists", &[ls.clone(), fmt_usizes(&vs), fmt_usizes(&v2)], out);
+        } else {
+            run("C03.forall", &[ls.clone(), fmt_usizes(&vs), fmt_usizes(&v2)], out);
+        }
+        let x = rng.below(n as u64) as usize;
+        run(if rng.bool() { "C03.varex" } else { "C03.varall" }, &[rs.clone(), x.to_string()], out);
+    }
+    // --- operands with different variable counts: nested_apply panics
+    for _ in 0..(if thorough { 200 } else { 20 }) {
+        let n = 1 + rng.below(4) as usize;
+        let l = fmt_bdd(&random_bdd(rng, n));
+        let r = fmt_bdd(&random_bdd(rng, n + 1));
+        let tab = (eager_table2(8), 8u32);
+        quant_pair(rng, n, &tab, &l, &r, &[0], out, true);
+        run("C03.nested", &[n.to_string(), tab.0.clone(), s("8"), r.clone(), l.clone(), s("1"), s("or"), s("14")], out);
+    }
+}
+
 fn main() { harness_main(gen, run) }
